@@ -210,7 +210,8 @@ def realise(case, seed=0):
         F, G = ufl.Coefficient(V), coef("P1")
         K = ufl.Constant(dom)
         form = (inner(ufl.conj(F) * u, v) + ufl.real(G) * inner(u, v) + ufl.imag(G) * K * inner(u, v)
-                + abs(K) * inner(u, v) + inner(grad(u), ufl.conj(K) * grad(v))) * dX
+                + abs(K) * inner(u, v) + inner(grad(u), ufl.conj(K) * grad(v))
+                + (2 + 1j) * G * inner(u, v) + inner(u, (0.5 - 1.5j) * F * v)) * dX      # complex literals as factors, either side
     else:
         raise ValueError(term)
     return {"form": form, "exact_ok": rule == "exact", "case": case, "gdim": gd, "tdim": td}
@@ -422,6 +423,13 @@ def realise_tp(item):
             return bu.wrap_element(basix.create_tp_element(basix.ElementFamily.P, ct, d, variant))
         Vc = ufl.FunctionSpace(dom, tpv(deg, basix.LagrangeVariant.equispaced))
         form = ufl.Coefficient(Vc) * inner(u, v) * dx + inner(ufl.grad(ufl.Coefficient(Vc)), ufl.grad(v)) * u * dx
+    elif term == "gllscheme":
+        # a non-default quadrature scheme requested through the metadata (GLL: lumped mass): the factorised kernel
+        # must use the same rule as the plain one (law T[sf=1] = T[sf=0]; GLL points are irrational from 4 points on)
+        # (degree 2 deg - 1: GLL with deg + 1 points = the nodes of the basis, the lumped mass matrix; the Gauss rule of
+        #  that degree has deg points and gives a different, also inexact, value)
+        md = {"quadrature_rule": "GLL", "quadrature_degree": max(1, 2 * deg - 1)}
+        form = ufl.Coefficient(V) * inner(u, v) * dx(metadata=md) + inner(grad(u), grad(v)) * dx(metadata=md)
     elif term == "twodegrees":
         # two quadrature degrees in one cell integral (both polynomial, both exact)
         form = inner(u, v) * dx(degree=2 * deg) + ufl.Coefficient(ufl.FunctionSpace(dom, tp(1))) * inner(u, v) * dx(degree=2 * deg + 2)
@@ -566,6 +574,9 @@ def realise_c05(item):
         from ufl import avg, dS
         form = (sc(f[0]) * sc(f[1]) * v * dA + sc(f[0])("+") * sc(f[1])("-") * avg(v) * dS(1)
                 + sc(f[2])("-") * sc(f[1])("+") * k0 * avg(v) * dS(2) + sc(f[1]) * v * dF)
+        # the piecewise-constant coefficient on the '-' side, alone (its single value is addressed directly)
+        dg0 = f[kinds.index("DG0")]
+        form = form + dg0("-") * v("+") * dS(1) + dg0("-") * dg0("+") * v("-") * dS(2)
     elif var % 5 == 4:
         # a constant that vanishes in preprocessing (source term of the differentiated functional) while others
         # survive: the descriptor and the kernels must both keep counting it (original constant order)
@@ -588,6 +599,11 @@ def realise_c05(item):
     else:
         # rank 0, only the last two coefficients survive
         form = sc(f[2]) * sc(f[3]) * k1[0] * dA + sc(f[3]) * k2[td - 1, 0] * dF
+    if var % 2 == 0 and form.arguments() and len(form.arguments()) == 1 and not (var % 6 == 5 and cell != "interval"):
+        # tensor constants with unequal extents: component (i, j[, k]) lives at its row-major position in c
+        k3 = ufl.Constant(dom, shape=(2, 3))
+        k4 = ufl.Constant(dom, shape=(3, 1, 2))
+        form = form + (k3[1, 0] + 2 * k3[0, 2] + 3 * k3[1, 2] + 5 * k4[2, 0, 1] + 7 * k4[1, 0, 0]) * form.arguments()[0] * dA
     fd = ufl.algorithms.compute_form_data(form, do_append_everywhere_integrals=False)
     return {"form": form, "exact_ok": True, "case": v_, "expect_positions": list(fd.original_coefficient_positions),
             "expect_constants": [list(c.ufl_shape) for c in form.constants()]}
@@ -656,4 +672,13 @@ def realise_mixedmeta(item):
         form = f * inner(f, v) * low + hi * v * dx  # rank 1
     else:
         form = hi * v * dx + f * f * v * low + x[0] * v * dx(degree=2)
+    if item["mm"].get("qe"):
+        # a term whose rule is that of a quadrature element next to terms with their own degree: the element's
+        # points and weights belong to that term only (both orders of the integrands, UFL sorts by them)
+        pts, wts = CUSTOM[cell][var % len(CUSTOM[cell])]
+        qel = bu.quadrature_element(cell, points=np.array([[float(c) for c in p_] for p_ in pts], dtype=np.float64).reshape(len(pts), td),
+                                    weights=np.array([float(w) for w in wts], dtype=np.float64))
+        q = ufl.Coefficient(ufl.FunctionSpace(dom, qel))
+        a_, b_ = (q * v, hi * v) if var % 2 == 0 else (q * x[0] ** 2 * v, x[td - 1] * v)
+        form = a_ * dx + b_ * dx(degree=5) + f * v * dx(degree=2 if cell in ("triangle", "tetrahedron") else 1)
     return {"form": form, "exact_ok": True, "case": item["mm"]}
